@@ -696,10 +696,12 @@ def write_evidence_file(prop, tier, seed, results, violations, known_hits, incon
         "coverage": {
             "evaluations": len(results),
             "distinct_nontrivial": len(nontrivial),
-            "rule": ("one evaluation = one Kani proof harness (bounded model checking by CBMC/CaDiCaL of the "
-                     "compiled /repo code over symbolic inputs); non-trivial = has at least one symbolic input "
+            "rule": ("one evaluation = one obligation: a Kani proof harness (bounded model checking by CBMC/CaDiCaL of the "
+                     "compiled /repo code over symbolic inputs), or one E2 (mnemonic, profile) / E3 (statement text) / "
+                     "E4 (program family) obligation decided by z3/cvc5; non-trivial = has at least one symbolic input "
                      "the assertion depends on, finished inside its cap with a conclusive verdict, and every "
-                     "kani::cover! reachability witness was SATISFIED; harness names are distinct by construction"),
+                     "kani::cover! reachability witness was SATISFIED (side engines: translator validation passed); "
+                     "obligation names are distinct by construction"),
             "samples": samples,
             "exhaustive": False,
             "engine": "E1: Kani 0.68.0 / CBMC 6.11.0 (CaDiCaL), dev profile; E2: MIR (nightly -Zunpretty=mir, overflow-checks on and off) -> SMT-LIB, z3 4.8.12 + cvc5 1.0; E3: native decode of catalogue text + SMT-LIB, z3 + cvc5; E4: native pipeline on exhaustively enumerated program families + inductive-invariant VCs, z3",
